@@ -36,6 +36,15 @@ theorem gen_cpow_entry0 {α : Type} [Scalar α] [FMem φ α] [LawfulFMem φ α] 
   rw [getElem?_eq_cget _ _ (by omega)] at this
   exact Option.some.inj this
 
+/-- entry 1 is exactly `z` over exact reals for EVERY `z` (unit modulus not needed), every `M ≥ 1` and every `imsqrt`:
+    the quadrant turns and the clock only permute and negate components (generated kernel; `C14.cpow_entry1`) -/
+theorem gen_cpow_entry1 [FMem φ ℝ] [LawfulFMem φ ℝ] (z : Cx ℝ) (M : Nat) (hM : 1 ≤ M) (zp : Nat) (imsqrt : Cx ℝ → ℝ) (st : φ) :
+    frdC (α := ℝ) (Gen.u_complex_powers (α := ℝ) (fun _ => z) (M : Int) zp 1 ((M : Int) + 1) imsqrt 4 st) zp ((1 : Nat) : Int) = z := by
+  rw [gen_cpow_cell z M zp imsqrt st 1 hM]
+  have h := C14.cpow_entry1 z M hM imsqrt
+  rw [getElem?_eq_cget _ _ (by rw [(C14.cpow_entry0 z M imsqrt).1]; omega)] at h
+  exact Option.some.inj h
+
 /-- non-vacuity: IEEE doubles on the executable memory, `M = 5`, cell 3 -/
 example (z : Cx Float) (imsqrt : Cx Float → Float) (st : HFMem Float) :
     frdC (α := Float) (Gen.u_complex_powers (α := Float) (fun _ => z) 5 3 1 6 imsqrt 4 st) 3 3 = cget (cpowers z 5 imsqrt) 3 :=
